@@ -124,7 +124,7 @@ func c17Extra(e *Engine, pc *PropertyCheck) {
 			pc.Aborts[name] = res.Aborts
 		}
 		for _, st := range Discharge(res.Obligs, timeout, 16) {
-			o := &Outcome{Name: name + "/" + st.Name, Func: name, Status: st.Status, Paths: st.Paths, Trivial: st.Trivial, Solvers: st.Solvers, Seconds: round3(st.Seconds), Kind: "vc"}
+			o := &Outcome{Name: name + "/" + st.Name, Func: name, Status: st.Status, Paths: st.Paths, Trivial: st.Trivial, Solvers: st.Solvers, Seconds: round3(st.Seconds), MaxQuery: round3(st.MaxQuery), Kind: "vc"}
 			pc.SolverSecs += st.Seconds
 			if st.Status != "discharged" {
 				o.fail = st
